@@ -887,6 +887,16 @@ fn child_main(args: &[String]) {
     });
 }
 
+/// This very executable, also when the file has been replaced by a rebuild meanwhile.
+fn self_exe() -> PathBuf {
+    let p = PathBuf::from("/proc/self/exe");
+    if p.exists() {
+        p
+    } else {
+        std::env::current_exe().expect("current_exe")
+    }
+}
+
 struct ChildOut {
     killed: bool,
     returned: bool,
@@ -895,7 +905,7 @@ struct ChildOut {
 }
 
 fn run_child(dir: &Path, act: &Value, fail: Option<(u64, &str)>, linger: u64, kill_after_us: Option<u64>) -> ChildOut {
-    let exe = std::env::current_exe().expect("current_exe");
+    let exe = self_exe();
     let mut cmd = std::process::Command::new(exe);
     cmd.arg("sqlite-child").arg("--dir").arg(dir).arg("--action").arg(act.to_string());
     if let Some((k, kind)) = fail {
@@ -1208,6 +1218,13 @@ async fn worker_run(dir: &Path, wid: u64, iters: u64, seed: u64, go: Option<Path
         }
     };
     let mut rep = Replica::new(storage);
+    let mut reader = match open_sqlite(dir, false, false).await {
+        Ok(s) => s,
+        Err(e) => {
+            ev.push(json!({"w":wid,"seq":0,"a":"open","ok":false,"err":e}));
+            return ev;
+        }
+    };
     let mut rng = seed.wrapping_mul(1000003).wrapping_add(wid * 7919 + 1);
     // all handles are opened first; the work starts when the starting file appears
     if let Some(go) = go {
@@ -1250,9 +1267,18 @@ async fn worker_run(dir: &Path, wid: u64, iters: u64, seed: u64, go: Option<Path
         } else {
             let t = rep.all_task_data().await.map(|t| t.len());
             let w = rep.working_set().await.map(|w| w.len());
-            ev.push(json!({"w":wid,"seq":j,"a":"read","ok":t.is_ok() && w.is_ok(),
+            // ... and everything at once, in one transaction of a second handle of this worker
+            let snap = match reader.txn().await {
+                Ok(mut txn) => read_state(txn.as_mut()).await.ok(),
+                Err(_) => None,
+            };
+            let mut e = json!({"w":wid,"seq":j,"a":"read","ok":t.is_ok() && w.is_ok() && snap.is_some(),
                            "ntasks":t.ok().map(|n| n as i64).unwrap_or(-1),
-                           "nws":w.ok().map(|n| n as i64).unwrap_or(-1)}));
+                           "nws":w.ok().map(|n| n as i64).unwrap_or(-1)});
+            if let Some(st) = snap {
+                e["snap"] = state_json(&sm, &[], &st);
+            }
+            ev.push(e);
         }
     }
     drop(rep);
@@ -1307,7 +1333,7 @@ fn concurrent_main(args: &[String]) {
                 _ => wid % 2 == 0,
             };
             if as_proc {
-                let exe = std::env::current_exe().unwrap();
+                let exe = self_exe();
                 let child = std::process::Command::new(exe)
                     .arg("sqlite-worker").arg("--dir").arg(&d)
                     .arg("--wid").arg(wid.to_string())
@@ -1354,6 +1380,7 @@ fn concurrent_main(args: &[String]) {
         });
         let mut commits = vec![];
         let mut undone = vec![];
+        let mut snaps = vec![];
         let mut inconclusive = false;
         for e in &events {
             match e["a"].as_str().unwrap_or("") {
@@ -1375,6 +1402,10 @@ fn concurrent_main(args: &[String]) {
                     }
                 }
                 "rebuild" | "read" => {
+                    if let Some(sn) = e.get("snap") {
+                        snaps.push(sn.clone());
+                        *stats.entry("snapshots".into()).or_insert(0) += 1;
+                    }
                     *stats.entry(format!("{}s", e["a"].as_str().unwrap())).or_insert(0) += 1;
                     if e["ok"] != json!(true) {
                         *stats.entry("failed_reads_or_rebuilds".into()).or_insert(0) += 1;
@@ -1391,8 +1422,18 @@ fn concurrent_main(args: &[String]) {
             *stats.entry("inconclusive_runs".into()).or_insert(0) += 1;
         } else {
             writeln!(o, "{}", json!({"a":"Reset","id":run,"workers":w,"mode":mode,"seed":seed})).unwrap();
+            // (the snapshots are listed separately; the event log keeps the rest)
+            let events: Vec<Value> = events
+                .into_iter()
+                .map(|mut e| {
+                    if let Some(o) = e.as_object_mut() {
+                        o.remove("snap");
+                    }
+                    e
+                })
+                .collect();
             writeln!(o, "{}", json!({"a":"Audit","db":dbj,"final":finalj,"commits":commits,
-                                     "undone":undone,"events":events})).unwrap();
+                                     "undone":undone,"snaps":snaps,"events":events})).unwrap();
             *stats.entry("runs_audited".into()).or_insert(0) += 1;
         }
         let _ = std::fs::remove_dir_all(&d);
